@@ -28,6 +28,7 @@ def main(tier):
             "Not decided: the remaining validators' arithmetic; the converse (acceptance of every realisable module)."))
     r, s = cx.repo, cx.schema
     chk.run("R-ATTRTABLE", V.attrtable, r, floor=80)
+    chk.run("R-ATTRKEY", V.attrkey, r, floor=3)
     chk.run("R-ATTRVALUES", V.attrvalues, r, floor=4)
     chk.run("R-BYTEORDERREQ", V.byteorderreq, r, floor=29)
     chk.run("R-PHYSREQ", V.physreq, r, s, cx.sites, floor=2)
